@@ -25,7 +25,7 @@ MUTANTS = [
     M("c05-unary-drop-axis-guard", "C05", "break", [(OPS, "    if input.axis is not None:\n        return op(input.dequantize(), *args, **kwargs)\n    # When quantization is per-tensor", "    # When quantization is per-tensor")], "C05.R5"),
     M("c05-neg-drop-float-guard", "C05", "break", [(OPS, "    if input.qtype.is_floating_point:\n        # Neg is not supported for float8\n        return op(input.dequantize(), *args, **kwargs)\n", "")], "C05.R6"),
     M("c05-div-swap", "C05", "break", [(OPS, "input._data, op(input._scale, other))", "input._data, op(other, input._scale))")], "C05.R4"),
-    M("c05-div-nonscalar-redispatch", "C05", "break", [(OPS, "    if not is_scalar(other):\n        return qfallback(op, input, other)", "    if not is_scalar(other):\n        return op(input.dequantize(), other)")], "C05.R2"),
+    M("c05-div-nonscalar-redispatch", "C05", "break", [(OPS, "        return qfallback(op, input, other, rounding_mode=rounding_mode)", "        return op(input.dequantize(), other, rounding_mode=rounding_mode)")], "C05.R2"),
     M("c05-mul-wrong-scale", "C05", "break", [(OPS, "other._data, input * other._scale)", "other._data, other._scale)")], "C05.R4"),
     M("c05-mul-scalar-guard-dropped", "C05", "break", [(OPS, "    if is_scalar(other):\n        return QBytesTensor(input.qtype, input.axis, input.size(), input.stride(), input._data, other * input._scale)\n    return qfallback(op, input, other)", "    return QBytesTensor(input.qtype, input.axis, input.size(), input.stride(), input._data, other * input._scale)")], None),
     M("c05-relu-drop-float-guard", "C05", "break", [(OPS, "    if input.qtype.is_floating_point:\n        # Relu is not supported for float8 types\n        return qfallback(op, input)\n", "")], "C05.R6"),
@@ -37,8 +37,8 @@ MUTANTS = [
     M("c05-t-axis-not-flipped", "C05", "break", [(OPS, "        out_axis = 0 if out_axis == -1 else -1\n", "")], "C05.R4"),
     M("c05-t-scale-not-moved", "C05", "break", [(OPS, "        out_scale = op(out_scale)\n", "")], None),
     M("c05-t-no-rank-guard", "C05", "break", [(OPS, "    if input.ndim < 2:\n        # Transposing a scalar or a vector is a no-op\n        return QBytesTensor(input.qtype, input.axis, input.size(), input.stride(), out_data, input._scale)\n", "")], "C05.R11"),
-    M("c05-copy-plain-dest", "C05", "break", [(OPS, "    if not isinstance(dest, QBytesTensor):\n        # Copying into a standard Tensor: use the dequantized values\n        return op(dest, src.dequantize())\n", "")], "C05.R2"),
-    M("c05-copy-scale-not-copied", "C05", "break", [(OPS, "    dest._scale = op(dest._scale, src._scale)\n", "")], "C05.R4"),
+    M("c05-copy-plain-dest", "C05", "break", [(OPS, "    if not isinstance(dest, QBytesTensor):\n        # Copying into a standard Tensor: use the dequantized values\n        return op(dest, src.dequantize(), non_blocking)\n", "")], "C05.R2"),
+    M("c05-copy-scale-not-copied", "C05", "break", [(OPS, "    dest._scale = op(dest._scale, src._scale, non_blocking)\n", "")], "C05.R4"),
     M("c05-qfallback-args-only", "C05", "break", [(QT, "    args, kwargs = pytree.tree_map_only(QTensor, lambda x: x.dequantize(), (args, kwargs or {}))\n    return callable(*args, **kwargs)", "    args = pytree.tree_map_only(QTensor, lambda x: x.dequantize(), args)\n    return callable(*args, **(kwargs or {}))")], "C05.R9"),
     M("c05-dispatch-drops-kwargs", "C05", "break", [(QB, "            return qdispatch(*args, **kwargs)", "            return qdispatch(*args)")], "C05.R8"),
     M("c05-torchfunction-no-disable", "C05", "break", [(QT, "        with torch._C.DisableTorchFunctionSubclass():\n            return func(*args, **kwargs)", "        return func(*args, **kwargs)")], "C05.R8"),
